@@ -25,7 +25,21 @@ def serve_value(x):
     return 7 * x + 3
 
 
+def gen_overtake_cfg(rng):
+    """capacity 1: request 0 holds the slot for 2 virtual seconds, caller 1 waits for it, caller 2 arrives at the very moment
+    request 0's result is about to emerge and needs 7 more seconds: whoever loses the race for the freed slot waits again"""
+    callers = [{'backpressure': False, 'x': 0, 'timeout': 1000, 'start_at': 0},
+               {'backpressure': False, 'x': 1, 'timeout': 5, 'start_at': rng.choice([0, 1])},
+               {'backpressure': False, 'x': 2, 'timeout': rng.choice([5, 1000]), 'start_at': 0, 'start_after': 0}]
+    if rng.random() < 0.4:
+        callers.append({'backpressure': rng.random() < 0.5, 'x': 3, 'timeout': 5, 'start_at': rng.choice([0, 3])})
+    dur = {0: 2, 1: rng.choice([0, 7]), 2: 7, 3: 0}
+    return {'capacity': 1, 'callers': callers, 'nworkers': rng.choice([1, 2]), 'fail': {}, 'timers_adversarial': False, 'dur': dur}
+
+
 def gen_server_cfg(rng: random.Random, force_backpressure=None):
+    if force_backpressure is None and rng.random() < 0.12:
+        return gen_overtake_cfg(rng)
     m = rng.choice([1, 2, 2, 3, 3, 4, 5])
     cap = rng.choice([1, 1, 2, 2, 3])
     callers = []
@@ -36,8 +50,18 @@ def gen_server_cfg(rng: random.Random, force_backpressure=None):
     for i in range(m):
         if rng.random() < 0.15:
             fail[i] = rng.randrange(40, 44)
+    # virtual service times: with deadline-ordered timers results emerge at different (virtual) moments, so that waiters are
+    # woken, overtaken and wait again at times other than 0
+    dur = {i: rng.choice([0, 0, 1, 2, 3, 7]) for i in range(m)} if rng.random() < 0.5 else {}
+    if dur:
+        for i, c in enumerate(callers):
+            # staggered arrivals; some callers arrive at the very moment another request's result is about to emerge, so that
+            # they race with the waiter that is being woken for the freed slot
+            c['start_at'] = rng.choice([0, 0, 0, 1, 2])
+            if i > 0 and rng.random() < 0.4:
+                c['start_after'] = rng.randrange(0, i)
     return {'capacity': cap, 'callers': callers, 'nworkers': rng.choice([1, 2, 2, 3]), 'fail': fail,
-            'timers_adversarial': rng.random() < 0.45}
+            'timers_adversarial': rng.random() < 0.45, 'dur': dur}
 
 
 class FakeServlet:
@@ -45,8 +69,10 @@ class FakeServlet:
     input_queue_type = 'thread'
     output_queue_type = 'thread'
 
-    def __init__(self, n, fail, S):
+    def __init__(self, n, fail, S, dur=None, gates=None):
         self.n, self.fail, self.S = n, fail, S
+        self.dur = dur or {}
+        self.gates = gates or {}
         self.threads = []
 
     def start(self, q_in, q_out):
@@ -64,6 +90,11 @@ class FakeServlet:
                 self.q_in.put(None)      # leave the sentinel for the peers
                 return
             uid, x = z
+            d = self.dur.get(x) or self.dur.get(str(x))
+            if d:
+                vprims.VClockNS.sleep(d)
+            if x in self.gates:
+                self.gates[x].set()          # callers gated on this request arrive now
             if x in self.fail:
                 y = ServeErr(self.fail[x])
             else:
@@ -140,6 +171,10 @@ def run_server(cfg, strategy, max_steps=30000):
 
     def caller(i):
         c = cfg['callers'][i]
+        if c.get('start_at'):
+            vprims.VClockNS.sleep(c['start_at'])
+        if c.get('start_after') is not None:
+            gates[c['start_after']].wait(timeout=50)
         t0 = S.clock
         try:
             y = server.call(c['x'], timeout=c['timeout'], backpressure=c['backpressure'])
@@ -157,11 +192,12 @@ def run_server(cfg, strategy, max_steps=30000):
         stats['waited'][i] = S.clock - t0
 
     server = None
+    gates = {c['x']: vprims.VEvent() for c in cfg['callers']}
 
     def body():
         nonlocal server
         import threading
-        server = _server.Server(FakeServlet(cfg['nworkers'], fail, S), capacity=cfg['capacity'])
+        server = _server.Server(FakeServlet(cfg['nworkers'], fail, S, cfg.get('dur'), gates), capacity=cfg['capacity'])
         class Ledger(vprims.LoggingDict):
             def __setitem__(self, k, v):
                 try:
@@ -169,9 +205,17 @@ def run_server(cfg, strategy, max_steps=30000):
                 except Exception:
                     pass
                 super().__setitem__(k, v)
-        server._uid_to_futures = Ledger()
         server._uid_counter = CallerIndexCounter()
-        stats['ledger'] = server._uid_to_futures
+        # Server.__enter__ starts with a fresh ledger and then starts its threads (_enter_server): the logging ledger is
+        # put in place between the two
+        orig_enter = _server._enter_server
+
+        def enter_with_ledger(srv, *a, **k):
+            srv._uid_to_futures = Ledger()
+            stats['ledger'] = srv._uid_to_futures
+            return orig_enter(srv, *a, **k)
+        _server._enter_server = enter_with_ledger
+        stats['restore_enter'] = orig_enter
         try:
             with server:
                 ts = [threading.Thread(target=caller, args=(i,), name=f'caller-{i}') for i in range(m)]
@@ -220,8 +264,12 @@ def run_server(cfg, strategy, max_steps=30000):
         (_server, 'id', alloc_id),
         (_server, '_SimpleThreadQueue', make_stq),
     ]
-    with inject.scheduled_world(extra):
-        _, exc = S.run(body)
+    try:
+        with inject.scheduled_world(extra):
+            _, exc = S.run(body)
+    finally:
+        if stats.get('restore_enter') is not None:
+            _server._enter_server = stats['restore_enter']
     if exc is not None:
         res['outcome'] = ['harness-error', repr(exc)]
     res.update(project_server(S, cfg))
@@ -255,8 +303,8 @@ def project_server(S, cfg):
     for (t, op, obj, val) in S.log:
         T = tid(t)
         ex = 0
-        if op in ('start',):
-            continue
+        if op in ('start',) or op.startswith('evt_'):
+            continue       # thread starts; the harness's own arrival gates
         if op == 'join':
             # only the final join of the gather thread by main, and the gather thread's join of the notifier
             if T == 0 and str(obj).startswith('Server._gather_output'):
